@@ -265,6 +265,10 @@ fn check(ctx: &Ctx) -> i32 {
         let items: Vec<(&'static str, bool)> = idx.iter().map(|&j| pool[j]).collect();
         let sample = l.samples.len() < 2 && (i + ctx.seed) % 577 == 3;
         vh::netsweep::check_list("c01", &items, &reqs, l, sample, true);
+        // second route into the same index: the rules handed to an empty blocker one by one
+        if items.len() <= 2 {
+            vh::netsweep::check_list_incremental("c01", &items, &reqs, l, true, i % 2 == 1);
+        }
     });
     // category triples: one blocking rule x one exception x one modifier rule (redirect, csp,
     // removeparam): the shortest lists on which every stage of the verdict pipeline has work to do
@@ -292,6 +296,7 @@ fn check(ctx: &Ctx) -> i32 {
         let mut items: Vec<(&str, bool)> = owned.iter().enumerate().filter(|(k, _)| j & (1 << k) != 0).map(|(_, r)| (*r, false)).collect();
         items.insert(items.len() / 2, (shared[(j >> owned.len()) as usize], false));
         vh::netsweep::check_list_opt("c01.shared", &items, &reqs, l, false, true, optimize);
+        vh::netsweep::check_list_incremental("c01.shared", &items, &reqs, l, true, optimize);
     });
     // the rule cube: every (pattern shape, option set, exception?) cell alone, and next to each of
     // a few partner rules that change which token the cell is filed under or share its bucket
@@ -324,6 +329,9 @@ fn check(ctx: &Ctx) -> i32 {
             l.samples.push(serde_json::json!({"cube_cell": rule, "partner": partner}));
         }
         vh::netsweep::check_list("c01.cube", &items, &reqs, l, false, true);
+        if (i / np / no / 2) < 2 || (ctx.tier == vh::Tier::Thorough && (i / np / no / 2) % 2 == 0) {
+            vh::netsweep::check_list_incremental("c01.cube", &items, &reqs, l, true, false);
+        }
     });
     // bucket sizes: n rules that share their only indexable token (one bucket of n entries), each
     // matching exactly one URL of its own, for every n up to a bound; every third rule is an
@@ -342,6 +350,9 @@ fn check(ctx: &Ctx) -> i32 {
             }
         }
         vh::netsweep::check_list_opt("c01.bucket-size", &items, &rq, l, false, false, n % 2 == 0);
+        if n % 4 == 1 {
+            vh::netsweep::check_list_incremental("c01.bucket-size", &items, &rq, l, false, false);
+        }
     });
     // bucket forcing: every rule of the pool, stored under each of its indexable tokens in turn
     let forced: Vec<(&'static str, String, Vec<String>)> = alpha::R_NET.iter().flat_map(|r| forced_lists(r).into_iter().map(move |(t, l)| (*r, t, l))).collect();
